@@ -11,6 +11,8 @@ import (
 	"verif/harness/props/c06"
 	"verif/harness/props/c07"
 	"verif/harness/props/c09"
+	"verif/harness/props/c10"
+	"verif/harness/props/c11"
 	"verif/harness/props/c12"
 	"verif/harness/props/c13"
 	"verif/harness/props/c14"
@@ -31,6 +33,8 @@ func Specs() map[string]*core.Spec {
 		c06.Spec(),
 		c07.Spec(),
 		c09.Spec(),
+		c10.Spec(),
+		c11.Spec(),
 		c12.Spec(),
 		c13.Spec(),
 		c14.Spec(),
